@@ -57,6 +57,10 @@ CHECKS = {
          "grammar-bounded exhaustive enumeration of hostile DNS messages (name-token strings in every name position, RDATA truncations/mutations, header counts, scaling families), in memory-capped worker processes with hang watchdog",
          "Every string of up to 4 (5) name tokens (labels, end, pointers to self/forward/header/earlier tokens/past the end, reserved prefixes, half pointers) is placed in the question, owner and every name-bearing RDATA position; 18 RDATA layouts are cut at every byte and mutated at every byte; header counts are swept; scaling families up to 16 KiB (64 KiB) bound time and allocation polynomially; every decoded message is then served as the DoH body to the real Resolver.",
          "token grammar, not arbitrary bytes; allocation = TotalAlloc delta, budget 256KiB+512n+n^2/2", "§3 C12"),
+ "C14": ("model_checking", "E1/E4 + dohmem",
+         "reference resolver model (RFC 9460 procedure) + total replay over an exhaustively enumerated universe of zones x name forms against an in-memory DoH responder that logs every query",
+         "75 HTTPS data shapes (absent, 5 rcodes, 9 service sets, alias chains of length 1..6 with 7 kinds of endings incl. loops) x address data x rcodes x in-answer CNAME x target addresses x poisoned answers x 12 name forms are enumerated (quick: covering rotation for 8 of the forms); the real Resolve runs against the in-memory DoH responder; result, error class, set and number of queries and query padding are compared with the model; hostile names, labels and schemes of every boundary length must yield an error or result and only well-formed queries.",
+         "model in checks/c14 (chains <=3 must be followed, longer ones may be abandoned; loops end in fallback or error); mixed alias/service RRsets excluded", "§3 C14"),
 }
 
 NOT_YET = {}
